@@ -627,6 +627,10 @@ func byteValuesFromStrings(v ssa.Value, depth int, seen map[ssa.Value]bool) bool
 	case *ssa.Const:
 		return x.IsNil()
 	case *ssa.MakeSlice:
+		// make([][]byte, 0, n): empty, only a capacity hint for the appends that follow
+		if k, isK := an.IntConst(x.Len); isK && k == 0 {
+			return true
+		}
 		// b := make([][]byte, len(values)); for i := range values { b[i] = []byte(values[i]) }
 		if x.Referrers() == nil {
 			return false
